@@ -4,7 +4,18 @@ T = "wannierberri/grid/tetrahedron.py"
 U_ = "wannierberri/utility.py"
 SM = "wannierberri/smoother.py"
 ER = "wannierberri/result/energyresult.py"
+RG = "wannierberri/run_grid.py"
 MUTANTS = [
+    dict(prop="C12", name="process: revert fix", file=RG, old="remotes_calculated_old = remotes_calculated_old | remotes_calculated_bool", new="remotes_calculated_old = remotes_calculated_bool"),
+    dict(prop="C12", name="process: break before collecting the last batch", file=RG, old="""            remotes_calculated_diff = remotes_calculated_bool & ~remotes_calculated_old
+            for ir in np.where(remotes_calculated_diff)[0]:""", new="""            remotes_calculated_diff = remotes_calculated_bool & ~remotes_calculated_old
+            if num_remotes_calculated >= num_remotes and num_remotes > 2:
+                break
+            for ir in np.where(remotes_calculated_diff)[0]:"""),
+    dict(prop="C12", name="process: result taken from wrong K-point", file=RG, old="                Kp = dK_list[ir]", new="                Kp = dK_list[ir - 1]"),
+    dict(prop="C12", name="process: store_results ignored", file=RG, old="        elif not store_results:", new="        elif store_results:"),
+    dict(prop="C12", name="process: serial skips the first new point when some are evaluated", file=RG, old="    dK_list = [K_list[ik] for ik in selK]", new="    dK_list = [K_list[ik] for ik in selK[(1 if len(selK) < len(K_list) and len(selK) > 2 else 0):]]"),
+    dict(prop="C12", name="PRESERVING: process uses |= ", file=RG, old="remotes_calculated_old = remotes_calculated_old | remotes_calculated_bool", new="remotes_calculated_old |= remotes_calculated_bool", expect="ok"),
     dict(prop="C17", name="dataSmooth: revert fix", file=ER, old="data_tmp = self.smoothers[i](data_tmp, axis=i)", new="data_tmp = self.smoothers[i](self.data, axis=i)"),
     dict(prop="C17", name="dataSmooth: skips last axis", file=ER, old="for i in range(self.N_energies - 1, -1, -1):", new="for i in range(self.N_energies - 2, -1, -1):"),
     dict(prop="C17", name="dataSmooth: wrong axis", file=ER, old="data_tmp = self.smoothers[i](data_tmp, axis=i)", new="data_tmp = self.smoothers[i](data_tmp, axis=0)"),
